@@ -210,6 +210,7 @@ from .value import (
     stable_set_order,
     set_self,
     stringify_object,
+    unannotate,
     unannotate_value,
     unite_and_simplify,
     unite_values,
@@ -5109,7 +5110,7 @@ class NameCheckVisitor(node_visitor.ReplacingNodeVisitor):
                 # e.g. list[T] where T is a PEP 695 type parameter: there is no runtime
                 # object to subscript, keep the structure for type_from_value
                 return_value = _SubscriptedValue(value, annotation_members)
-            elif value == KnownValue(type):
+            elif unannotate(value) == KnownValue(type):
                 # "type[int]" is legal, but neither
                 # type.__getitem__ nor type.__class_getitem__ exists at runtime. Support
                 # it directly instead.
